@@ -255,7 +255,19 @@ def c_lists(c, kind, body, signed):
                 o.items.append(it)
             c.check("C04: indexing and iteration expose the objects appended after the clear",
                     len(o.items) == 2 and all(o.items[i] is fresh[i] for i in range(2)) and all(a is b for a, b in zip(o.items, fresh)))
-            o.randomize()
+            # assigning one element replaces exactly that element of the exposed list, and the next call solves the new object
+            repl = Item()
+            o.items[1] = repl
+            fresh[1] = repl
+            c.check("C04: assigning an element of an object list replaces exactly that element",
+                    len(o.items) == 2 and o.items[1] is repl and o.items[0] is fresh[0])
+            before = (int(repl.x), int(repl.y))
+            ok_solved = False
+            for _ in range(4):                   # an element that is really solved changes value over a few calls
+                o.randomize()
+                ok_solved = ok_solved or (int(repl.x), int(repl.y)) != before
+            c.check("C04: the assigned object is the one the next calls solve", ok_solved or body == "obj_idx",
+                    info="values stayed %r" % (before,))
             xs = [(int(it.x), int(it.y)) for it in fresh]
             c.check("C04: the next call solves the refilled elements",
                     (all(x < 6 and y > x for x, y in xs) if body == "obj_field" else all(x == i + 2 for i, (x, y) in enumerate(xs)))
